@@ -231,13 +231,20 @@ func (rd *ReorgDetector) detectReorgInTrackedList(ctx context.Context) error {
 					rd.network, event.SubscriberID, event.FromBlock, event.ToBlock, event.CurrentHash, event.TrackedHash)
 				// Notify the subscriber about the reorg
 				rd.notifySubscriber(id, hdr)
+				// Blocks of the reorged fork may have been tracked while this check was running (after the
+				// snapshot in `headers` was taken): they must be removed as well, otherwise they are reported
+				// as a new reorg later on
+				lastTracked := event.ToBlock
+				if current := hdrs.getSorted(); len(current) > 0 && current[len(current)-1].Num > lastTracked {
+					lastTracked = current[len(current)-1].Num
+				}
 				// Remove the reorged block and all the following blocks from DB
-				if err := rd.removeTrackedBlockRange(event.SubscriberID, event.FromBlock, event.ToBlock); err != nil {
+				if err := rd.removeTrackedBlockRange(event.SubscriberID, event.FromBlock, lastTracked); err != nil {
 					return fmt.Errorf("error removing blocks from DB for subscriber %s between blocks %d and %d: %w",
-						event.SubscriberID, event.FromBlock, event.ToBlock, err)
+						event.SubscriberID, event.FromBlock, lastTracked, err)
 				}
 				// Remove the reorged block and all the following blocks from memory
-				hdrs.removeRange(event.FromBlock, event.ToBlock)
+				hdrs.removeRange(event.FromBlock, lastTracked)
 
 				break
 			}
